@@ -21,6 +21,7 @@ import (
 	"sort"
 	"strings"
 	"sync"
+	"sync/atomic"
 
 	"oras.land/oras-go/v2/registry/remote/auth"
 	"oras.land/oras-go/v2/registry/remote/credentials"
@@ -126,7 +127,54 @@ type credOp struct {
 	Cred auth.Credential `json:"cred"`
 }
 
+// credRaceChild: many goroutines on one store - readers of an address that is stored under a
+// legacy key (and of one that is not stored at all) against writers of other addresses.  A
+// data race on the store's map ends the process with a fatal error, which the parent sees.
+func credRaceChild(path string) {
+	fs, err := credentials.NewFileStore(path)
+	if err != nil {
+		os.Exit(3)
+	}
+	ctx := context.Background()
+	var wg sync.WaitGroup
+	bad := int32(0)
+	for g := 0; g < 6; g++ {
+		wg.Add(1)
+		go func(g int) {
+			defer wg.Done()
+			for k := 0; k < 400; k++ {
+				switch g % 3 {
+				case 0: // stored as https://legacy.example/v1/ only
+					c, err := fs.Get(ctx, "legacy.example")
+					if err != nil || c.Username != "lu" || c.Password != "lp" {
+						atomic.StoreInt32(&bad, 1)
+					}
+				case 1:
+					if c, err := fs.Get(ctx, "absent.example"); err != nil || c != auth.EmptyCredential {
+						atomic.StoreInt32(&bad, 1)
+					}
+				default:
+					addr := fmt.Sprintf("w%d-%d.example", g, k%40)
+					if k%3 == 2 {
+						fs.Delete(ctx, addr)
+					} else if err := fs.Put(ctx, addr, auth.Credential{Username: "u", Password: fmt.Sprint(k)}); err != nil {
+						atomic.StoreInt32(&bad, 1)
+					}
+				}
+			}
+		}(g)
+	}
+	wg.Wait()
+	if bad != 0 {
+		os.Exit(5)
+	}
+}
+
 func credChildMainImpl(args []string) {
+	if len(args) == 2 && args[1] == "RACE" {
+		credRaceChild(args[0])
+		return
+	}
 	runtime.LockOSThread()
 	b, _ := os.ReadFile(args[1])
 	var ops []credOp
@@ -461,6 +509,37 @@ func runC18(seed int64, tier string, sc *Script) map[string]any {
 				evals++
 			}
 		}
+	}
+	// readers of a legacy-keyed address racing writers of other addresses, in a child process
+	// (a race on the store's map is fatal to the process that has it)
+	sc.Case("cred-legacy-get-race")
+	sc.NonTrivial()
+	{
+		rounds := 4
+		if tier == "thorough" {
+			rounds = 40
+		}
+		verdict := "survived"
+		self, _ := os.Executable()
+		for ri := 0; ri < rounds && verdict == "survived"; ri++ {
+			path := filepath.Join(tmp, fmt.Sprintf("race%d.json", ri))
+			var auths []string
+			for k := 0; k < 200; k++ {
+				auths = append(auths, fmt.Sprintf(`"pre%d.example":{"auth":"dTpw"}`, k))
+			}
+			os.WriteFile(path, []byte(`{"auths":{"https://legacy.example/v1/":{"auth":"bHU6bHA="},`+strings.Join(auths, ",")+`}}`), 0o600)
+			cmd := exec.Command(self, "credchild", path, "RACE")
+			out, err := cmd.CombinedOutput()
+			if err != nil {
+				first := strings.SplitN(strings.TrimSpace(string(out)), "\n", 2)[0]
+				verdict = "child-died:" + strings.ReplaceAll(first, " ", "_")
+				if ee, ok := err.(*exec.ExitError); ok && ee.ExitCode() == 5 {
+					verdict = "wrong-answer-under-concurrency"
+				}
+			}
+		}
+		sc.Op(verdict, "cd legacyrace rounds=%d", rounds)
+		evals++
 	}
 	// concurrent callers: the final file equals some sequential order (per-address last writer)
 	sc.Case("cred-concurrent")
